@@ -335,10 +335,29 @@ func (s *clientSide) open(idx int, body []byte) error {
 
 func (s *clientSide) windows(idx int) (int32, int32) { return s.ms[idx].VerifSendWindows() }
 func (s *clientSide) resetAll() {
+	s.w.Close(api.NoFlush, api.LocalClose)
 	for _, m := range s.ms {
 		m.Reset()
 	}
-	s.wg.Wait()
+	waitSenders(&s.wg, func() {
+		s.feed(func(fr *xh2.Framer) { fr.WriteSettings(xh2.Setting{ID: xh2.SettingInitialWindowSize, Val: 1}) })
+	})
+}
+
+// waitSenders waits for the sender goroutines; a sender can miss the wake-up of its stream's reset (closeStream
+// broadcasts before it marks the stream closed), so the connection is closed and `kick` makes MOSN broadcast again.
+func waitSenders(wg *sync.WaitGroup, kick func()) {
+	done := make(chan struct{})
+	go func() { wg.Wait(); close(done) }()
+	for i := 0; i < 400; i++ {
+		select {
+		case <-done:
+			return
+		case <-time.After(5 * time.Millisecond):
+			kick()
+		}
+	}
+	panic("sender goroutines did not terminate")
 }
 
 // ---- server side: MServerConn sends response bodies
@@ -422,10 +441,13 @@ func (s *serverSide) open(idx int, body []byte) error {
 }
 func (s *serverSide) windows(idx int) (int32, int32) { return s.ms[idx].VerifSendWindows() }
 func (s *serverSide) resetAll() {
+	s.w.Close(api.NoFlush, api.LocalClose)
 	for _, m := range s.ms {
 		m.Reset()
 	}
-	s.wg.Wait()
+	waitSenders(&s.wg, func() {
+		s.feed(func(fr *xh2.Framer) { fr.WriteSettings() })
+	})
 }
 
 // runScript executes one script and returns the executed prefix and the observations.
